@@ -635,7 +635,9 @@ end example2
 section murmur
 open USyn
 
-theorem gen_murmur_as_modelled : GenPack.murmur = murmurAsModelled := by decide
+/-- (the DEFAULT value of the seed is free: the theorems below hold for every seed) -/
+theorem gen_murmur_as_modelled :
+    GenPack.murmur = { murmurAsModelled with defaultSeed := GenPack.murmur.defaultSeed } := by decide
 
 /-- the translated `hash128` computes the model `Vita.Murmur.hash128` (the one the other
     properties execute) on EVERY message and seed: block loop = `body`, tail switch = `tailStep`
@@ -671,7 +673,7 @@ theorem finish_injective_len (h : Vita.Murmur.Hash) (l1 l2 : Nat) (b1 : l1 < 2 ^
   simp only [Nat.toUInt64_eq, UInt64.toNat_ofNat'] at h1
   omega
 
-example : GenPack.murmur.run [104, 101, 108, 108, 111] = ⟨14265882799767548616, 12174794982621535140⟩ := by
+example : GenPack.murmur.run [104, 101, 108, 108, 111] 1973 = ⟨14265882799767548616, 12174794982621535140⟩ := by
   decide
 
 end murmur
